@@ -17,11 +17,12 @@ TOKEN_RE = re.compile(r"""
   | (?P<lc>//[^\n]*)
   | (?P<bc>/\*.*?\*/)
   | (?P<str>"(?:\\.|[^"\\])*")
+  | (?P<hex>0x[0-9a-fA-F_]+(?:u32|u64|usize)?)
   | (?P<num>\d[\d_]*(?:\.\d[\d_]*)?(?:[eE][-+]?\d+)?(?:_?(?:f64|f32|usize|u64|u32|i32|i64|u16|i16|u8))?)
   | (?P<chr>'(?:\\.|\\u\{[0-9a-fA-F]+\}|[^'\\])')
   | (?P<life>'[a-zA-Z_]\w*)
   | (?P<id>[A-Za-z_]\w*)
-  | (?P<op>::|->|=>|==|!=|<=|>=|&&|\|\||\+=|-=|\*=|/=|\.\.=|\.\.|[-+*/%=<>!&|.,;:(){}\[\]#?@^$~])
+  | (?P<op>::|->|=>|==|!=|<<=|>>=|<<|>>|<=|>=|&&|\|\||\+=|-=|\*=|/=|\^=|\|=|&=|\.\.=|\.\.|[-+*/%=<>!&|.,;:(){}\[\]#?@^$~])
 """, re.S | re.X)
 
 
@@ -35,6 +36,9 @@ def tokenize(src):
         i = m.end()
         k = m.lastgroup
         if k in ("ws", "lc", "bc"):
+            continue
+        if k == "hex":
+            out.append(("num", str(int(re.sub(r"(u32|u64|usize)$", "", m.group(k)).replace("_", ""), 16))))
             continue
         out.append((k, m.group(k)))
     out.append(("eof", ""))
@@ -64,6 +68,10 @@ class P:
         return False
 
     def expect(self, v):
+        if v == ">" and self.at(">>"):
+            # `Vec<Vec<T>>`: the tokeniser's shift operator closes two generic lists
+            self.t[self.i] = ("op", ">")
+            return
         if not self.eat(v):
             raise Unsupported(f"expected {v!r}, found {self.peek()[1]!r}")
 
@@ -113,7 +121,8 @@ def parse_type(p):
 
 # ------------------------------------------------------------------ expressions
 BINPREC = {"||": 1, "&&": 2, "==": 3, "!=": 3, "<": 3, "<=": 3, ">": 3, ">=": 3,
-           "+": 5, "-": 5, "*": 6, "/": 6, "%": 6}
+           "|": 4, "^": 5, "&": 6, "<<": 7, ">>": 7,
+           "+": 8, "-": 8, "*": 9, "/": 9, "%": 9}
 
 
 def parse_expr(p, minprec=0, nostruct=False):
@@ -208,6 +217,9 @@ def parse_primary(p, nostruct):
     if k == "str":
         p.next()
         return ("str", v)
+    if v == "[" and k == "op":
+        p.next()
+        return ("array", parse_args(p, "]"))
     if v == "(" and k == "op":
         p.next()
         e = parse_expr(p)
@@ -384,10 +396,17 @@ def parse_stmt(p):
             it = ("range", it, hi, incl)
         body = parse_block(p)
         return ("for", var, it, body)
-    if k == "id" and v in ("while", "loop"):
+    if k == "id" and v == "while":
+        p.next()
+        c = parse_expr(p, nostruct=True)
+        return ("while", c, parse_block(p))
+    if k == "id" and v == "unsafe" and p.at("{", 1):
+        p.next()
+        return ("unsafe", parse_block(p))
+    if k == "id" and v == "loop":
         raise Unsupported(v)
     e = parse_expr(p)
-    for op in ("=", "+=", "-=", "*=", "/="):
+    for op in ("=", "+=", "-=", "*=", "/=", "^=", "|=", "&=", "<<=", ">>="):
         if p.at(op):
             p.next()
             rhs = parse_expr(p)
